@@ -10,6 +10,7 @@ type SchemaOpts struct {
 	Schema   *spec.Schema
 	Root     interface{}
 	BasePath string
+	visited  map[string]struct{} // $refs being resolved up the call chain (stops on arrays or maps of themselves)
 	_        struct{}
 }
 
@@ -24,6 +25,7 @@ func Schema(opts SchemaOpts) (*AnalyzedSchema, error) {
 		schema:   opts.Schema,
 		root:     opts.Root,
 		basePath: opts.BasePath,
+		visited:  opts.visited,
 	}
 
 	a.initializeFlags()
@@ -54,6 +56,7 @@ type AnalyzedSchema struct {
 	schema   *spec.Schema
 	root     interface{}
 	basePath string
+	visited  map[string]struct{}
 
 	hasProps           bool
 	hasAllOf           bool
@@ -102,6 +105,18 @@ func (a *AnalyzedSchema) inherits(other *AnalyzedSchema) {
 
 func (a *AnalyzedSchema) inferFromRef() error {
 	if a.hasRef {
+		ref := a.schema.Ref.String()
+		if _, seen := a.visited[ref]; seen {
+			// recursive structure (e.g. an array or a map of itself): stop here
+			return nil
+		}
+
+		visited := make(map[string]struct{}, len(a.visited)+1)
+		for k := range a.visited {
+			visited[k] = struct{}{}
+		}
+		visited[ref] = struct{}{}
+
 		sch := new(spec.Schema)
 		sch.Ref = a.schema.Ref
 		err := spec.ExpandSchema(sch, a.root, nil)
@@ -112,6 +127,7 @@ func (a *AnalyzedSchema) inferFromRef() error {
 			Schema:   sch,
 			Root:     a.root,
 			BasePath: a.basePath,
+			visited:  visited,
 		})
 		if err != nil {
 			// NOTE(fredbi): currently the only cause for errors is
@@ -160,6 +176,7 @@ func (a *AnalyzedSchema) inferMap() error {
 			Schema:   a.schema.AdditionalProperties.Schema,
 			Root:     a.root,
 			BasePath: a.basePath,
+			visited:  a.visited,
 		})
 		if err != nil {
 			return err
@@ -187,6 +204,7 @@ func (a *AnalyzedSchema) inferArray() error {
 				Schema:   a.schema.Items.Schema,
 				Root:     a.root,
 				BasePath: a.basePath,
+				visited:  a.visited,
 			})
 			if err != nil {
 				return err
